@@ -59,7 +59,9 @@ SubRoot(ax, i, lo, n) ==
     IF n = 1 THEN LineLeaf(ax, i, lo)
     ELSE NodeH(SubRoot(ax, i, lo, n \div 2), SubRoot(ax, i, lo + n \div 2, n \div 2))
 
-LineRoot(ax, i) == SubRoot(ax, i, 0, W)
+\* tables (constant definitions: TLC evaluates them once)
+RootTbl == [ax \in Axes |-> [i \in Idx |-> SubRoot(ax, i, 0, W)]]
+LineRoot(ax, i) == RootTbl[ax][i]
 
 \* siblings of the honest single-leaf proof, in-order (= positional order), as nmt-rs emits them
 RECURSIVE SibsIn(_, _, _, _, _)
@@ -70,7 +72,8 @@ SibsIn(ax, i, lo, n, p) ==
          THEN SibsIn(ax, i, lo, h, p) \o <<SubRoot(ax, i, lo + h, h)>>
          ELSE <<SubRoot(ax, i, lo, h)>> \o SibsIn(ax, i, lo + h, h, p)
 
-HonestSibs(pf) == SibsIn(pf.ax, pf.line, 0, W, pf.pos)
+SibsTbl == [ax \in Axes |-> [i \in Idx |-> [p \in Idx |-> SibsIn(ax, i, 0, W, p)]]]
+HonestSibs(pf) == SibsTbl[pf.ax][pf.line][pf.pos]
 
 \* --- nmt-rs simple_merkle::utils
 RECURSIVE PopCount(_)
